@@ -52,6 +52,11 @@ pub struct Rib {
     multicast: Arc<Option<MultiThreadedStore<RotondaPaMap>>>,
     other_fams:
         HashMap<AfiSafiType, HashMap<(IngressId, Nlri<bytes::Bytes>), PaMap>>,
+    // Serialises `withdraw_for_ingress`. The store's `mark_mui_as_withdrawn`
+    // never refreshes the pointer it compares against, so a call that loses
+    // its first compare-exchange to a concurrent call spins forever. Holding
+    // this lock makes every first compare-exchange succeed.
+    withdraw_lock: std::sync::Mutex<()>,
 }
 
 #[derive(Copy, Clone, Debug)]
@@ -64,6 +69,7 @@ impl Rib {
             unicast: Arc::new(Some(MultiThreadedStore::new().unwrap())),
             multicast: Arc::new(Some(MultiThreadedStore::new().unwrap())),
             other_fams: HashMap::new(),
+            withdraw_lock: std::sync::Mutex::new(()),
         }
     }
 
@@ -72,6 +78,7 @@ impl Rib {
             unicast: Arc::new(None),
             multicast: Arc::new(None),
             other_fams: HashMap::new(),
+            withdraw_lock: std::sync::Mutex::new(()),
         }
     }
 
@@ -245,6 +252,13 @@ impl Rib {
         //     roto scripts, or what not.
         //     As such, perhaps we should leave the generation of
         //     those withdrawals to the very latest (most-East) point?
+
+        // Session-wide withdrawals of different sessions must not overlap,
+        // see the comment on `withdraw_lock`.
+        let _serialised = self
+            .withdraw_lock
+            .lock()
+            .unwrap_or_else(|poisoned| poisoned.into_inner());
 
         match specific_afisafi {
             None => {
